@@ -370,6 +370,50 @@ def variants(ck, cfgs):
             ck.oracle_fail({'cfg': repr(c2)}, fail)
 
 
+def faulty_device_query_fail():
+    """A backend whose get_devices fails while it handles the query (a TypeError, an OSError, a KeyError from inside the
+    enumeration): the failure is the caller's to see.  Whatever the library does about it, the device query that carries the
+    selected API is never silently replaced by one without it (the names of the default API would be handed out as those of
+    the selected one)."""
+    import importlib
+    from mido.backends.backend import Backend
+    real_import = importlib.import_module
+    for exc in (TypeError, OSError, KeyError, ValueError):
+        for name, kw, call_api in (('fk/ALSA', {}, None), ('fk', {'api': 'JACK'}, None), ('fk', {}, 'Y'), ('fk/ALSA', {}, 'Y')):
+            log = []
+            fake = make_module('fk', True, True, log)
+
+            def get_devices(**kwargs):
+                log.append('devices:%s' % (tok(kwargs['api']) if 'api' in kwargs else '-'))
+                if 'api' in kwargs:
+                    count = None
+                    if exc is TypeError:
+                        return [{'name': 'n%d' % i, 'is_input': True, 'is_output': True} for i in range(count)]   # TypeError inside
+                    raise exc('device enumeration failed')
+                return [{'name': n, 'is_input': i, 'is_output': o} for n, i, o in DEVICES]
+            fake.get_devices = get_devices
+            importlib.import_module = lambda nm, package=None: fake if nm == 'fk' else real_import(nm, package)
+            try:
+                b = Backend(name, load=True, **kw)
+                for fn in ('get_input_names', 'get_output_names', 'get_ioport_names'):
+                    del log[:]
+                    ckw = {'api': call_api} if call_api else {}
+                    try:
+                        got = getattr(b, fn)(**ckw)
+                        outcome = 'returned %r' % (got,)
+                    except Exception as e:      # noqa: BLE001
+                        outcome = 'raised ' + type(e).__name__
+                    if any(x == 'devices:-' for x in log):
+                        return (f'Backend({name!r}, **{kw!r}).{fn}({ckw!r}): the device query with the selected API failed inside the backend '
+                                f'({exc.__name__}) and a second query WITHOUT the API was made ({log}); the call {outcome}')
+                    if outcome.startswith('returned') and got:
+                        return (f'Backend({name!r}, **{kw!r}).{fn}({ckw!r}) {outcome} although the backend\'s device query for that API '
+                                f'failed with {exc.__name__}')
+            finally:
+                importlib.import_module = real_import
+    return None
+
+
 def run(ck):
     ck.prepare_lean()
     ck.run_corpus(oracle)
@@ -399,11 +443,18 @@ def run(ck):
     ck.evaluations += 1
     if f:
         ck.oracle_fail({'set_backend': True}, f)
+    f = faulty_device_query_fail()
+    ck.evaluations += 1
+    ck.count('faulty_device_queries')
+    if f:
+        ck.oracle_fail({'faulty_device_query': True}, f)
     return ck.finish(RULE, assumptions=['MIDO_BACKEND is read regardless of use_environ (the property does not say otherwise)',
                                         'set_backend is checked on the real mido module and restored (correspondence-only)'])
 
 
 def oracle(case):
+    if isinstance(case, dict) and case.get('faulty_device_query'):
+        return faulty_device_query_fail()
     if 'backend_copies' in case:
         return copies_fail()
     if 'set_backend' in case:
